@@ -157,6 +157,105 @@ async def send_case(ctx, case: dict) -> None:
     await stepper.close()
 
 
+async def fault_send_case(ctx, case: dict) -> None:
+    """The transport fails the write of a send: the caller gets a library error - and then that must be the END of it
+    ('exactly one of three ways'): the line is not also kept and written at a later wake."""
+    from aiomysensors.model.message import Message
+    from aiomysensors.model.node import Child, Node
+
+    version = case["version"]
+    gateway, transport = new_gateway(version)
+    stepper = Stepper(gateway, transport)
+    if case["dest"] != "unknown":
+        gateway.nodes[DEST] = Node(DEST, 17, "2.0", children={0: Child(0, 3), 7: Child(7, 3)},
+                                   sleeping=(case["dest"] == "sleeping"))
+    fields = tuple(case["fields"])
+    line = ";".join(str(f) for f in fields) + "\n"
+    kwargs = {} if case["buffered"] is None else {"message_buffer": case["buffered"]}
+    transport.fail_attempts = {transport.attempts}
+    kind, exc = await stepper.tx(Message(*fields), **kwargs)
+    transport.fail_attempts = set()
+    attempted = [e[2] for e in transport.events if e[0] == "write-call"]
+    transport.take_writes()
+    ctx.case(("fault-send", version, case["dest"], fields, case["buffered"]), sample=case)
+    ctx.clause("failed-write-classified")
+    if line in attempted:
+        if kind != "error":
+            ctx.violation("write-fault-swallowed", f"the write of send({fields!r:.60}) failed but send returned normally", case)
+        elif not is_library_error(exc):
+            ctx.violation("send-foreign-exception-" + type(exc).__name__, f"failed write surfaced as {type(exc).__name__}", case)
+    proto = gateway.protocol.VERSION
+    if kind == "error" and spec.is2x(proto) and DEST in gateway.nodes:
+        wake = 32 if proto == "2.2" else 22
+        await stepper.rx(f"{DEST};255;3;0;{wake};1\n")
+        await stepper.rx(f"{DEST};255;3;0;{wake};1\n")
+        later = transport.take_writes()
+        ctx.clause("errored-send-not-written-later")
+        if line in later:
+            ctx.violation("errored-send-written-later",
+                          f"send({fields!r:.60}) raised {type(exc).__name__} (its write failed) and yet the line was written at the "
+                          f"destination's later wake: {later}", case)
+    await stepper.close()
+
+
+def mqtt_send_case(ctx, case: dict) -> None:
+    """send() through the built-in MQTT client transport (fake aiomqtt client): when send returns the publish has
+    happened; when the broker refuses the publish, send raises a library error - for ack 0 and ack 1 alike."""
+    import asyncio
+
+    from aiomqtt import MqttError
+
+    from aiomysensors.gateway import Gateway
+    from aiomysensors.model.message import Message
+    from aiomysensors.transport.mqtt import MQTTClient
+
+    from ..mqttfake import FakeClient, install
+    from ..vloop import LogicalDeadlock, run_virtual
+
+    log: dict = {}
+
+    async def scenario() -> None:
+        transport = MQTTClient("broker.invalid", 1883, in_prefix="in", out_prefix="out")
+        gateway = Gateway(transport)
+        if case["version"]:
+            gateway.protocol_version = case["version"]
+        await transport.connect()
+        client = FakeClient.instances[-1]
+        if case["publish_fails"]:
+            FakeClient.publish_error = MqttError("publish refused")
+        before = len(client.published)
+        try:
+            await gateway.send(Message(*case["fields"]))
+            log["outcome"] = "ok"
+        except Exception as exc:  # noqa: BLE001
+            log["outcome"] = "library-error" if is_library_error(exc) else "foreign:" + type(exc).__name__
+        log["published_at_return"] = len(client.published) - before
+        FakeClient.publish_error = None
+        for _ in range(5):
+            await asyncio.sleep(0)
+        log["published_later"] = len(client.published) - before
+        await transport.disconnect()
+
+    with install() as seam:
+        if not seam:
+            ctx.skip("mqtt-send", "no aiomqtt client seam")
+            return
+        result, _loop = run_virtual(scenario)
+    ctx.case(("mqtt-send", case["version"], tuple(case["fields"]), case["publish_fails"]), sample=case)
+    ctx.clause("mqtt-send-classified")
+    if isinstance(result, LogicalDeadlock):
+        ctx.violation("mqtt-send-deadlock", "logical deadlock", case)
+    elif case["publish_fails"]:
+        if log["outcome"] == "ok":
+            ctx.violation("silently-discarded", f"send({case['fields']}) over MQTT returned normally although the broker refused "
+                                                f"the publish (nothing was published, no error raised)", case)
+        elif log["outcome"].startswith("foreign"):
+            ctx.violation("send-foreign-exception-" + log["outcome"].split(":")[1], f"publish failure surfaced as {log['outcome']}", case)
+    elif log["outcome"] == "ok" and log["published_at_return"] != 1:
+        ctx.violation("send-returned-before-publish", f"send({case['fields']}) returned with {log['published_at_return']} publishes "
+                                                      f"done ({log['published_later']} after further loop iterations)", case)
+
+
 async def pair_case(ctx, case: dict) -> None:
     """Two sends to a sleeping destination before its wake: neither may be silently discarded
     (a set superseded by a newer set for the same child and type is the only stated exception, C07)."""
@@ -267,7 +366,11 @@ def cases(ctx):
 
 
 def run_case(ctx, case: dict) -> None:
-    if "sends" in case:
+    if case.get("kind") == "mqtt-send":
+        mqtt_send_case(ctx, case)
+    elif case.get("kind") == "fault-send":
+        arun(fault_send_case(ctx, case))
+    elif "sends" in case:
         arun(pair_case(ctx, case))
     elif "object" in case:
         arun(nonmessage_case(ctx, case))
@@ -279,6 +382,20 @@ def run(ctx) -> None:
     with Reach(ANCHORS) as reach:
         for case in cases(ctx):
             arun(send_case(ctx, case))
+        for version in [None, *VERSIONS]:
+            for fields in ([DEST, 0, 1, 0, 2, "f1"], [DEST, 7, 1, 1, 3, "f2"], [DEST, 0, 2, 0, 2, ""], [DEST, 255, 3, 0, 13, ""],
+                           [DEST, 255, 4, 0, 1, "fw"], [DEST, 255, 0, 0, 17, "2.0"]):
+                for dest, buffered in itertools.product(("unknown", "awake", "sleeping"), (None, True, False)):
+                    if ctx.mine():
+                        arun(fault_send_case(ctx, {"kind": "fault-send", "version": version, "dest": dest, "fields": fields,
+                                                   "buffered": buffered}))
+        for version in (None, "2.0", "2.2"):
+            for fields in ([DEST, 0, 1, 0, 2, "m"], [DEST, 0, 1, 1, 2, "m"], [DEST, 255, 3, 1, 13, ""], [DEST, 0, 2, 1, 2, ""],
+                           [DEST, 255, 3, 0, 18, ""]):
+                for publish_fails in (False, True):
+                    if ctx.mine():
+                        mqtt_send_case(ctx, {"kind": "mqtt-send", "version": version, "fields": fields,
+                                             "publish_fails": publish_fails})
         pair_pool = [[DEST, 0, 1, 0, 2, "s1"], [DEST, 0, 2, 0, 2, ""], [DEST, 0, 1, 1, 3, "s2"], [DEST, 7, 2, 0, 2, ""],
                      [DEST, 7, 1, 0, 2, "s3"], [DEST, 255, 3, 0, 13, ""], [DEST, 0, 0, 0, 6, "p"], [DEST, 255, 4, 0, 0, "fw"],
                      [DEST, 0, 2, 1, 3, "q"], [DEST, 255, 3, 0, 19, ""]]
